@@ -22,7 +22,7 @@ import (
 	"verif/internal/model"
 )
 
-const rule = "cases (a): LeaseSet2 values (model-encoded, parsed; one in twenty of 20..60 KB, one in eight without leases; every identity type, 1..16 keys, 1..16 leases, options, offline blocks), recipient X25519 key pairs and cookies derived from seeds; per case every single byte position of the ciphertext (ephemeral key, nonce, body, tag) x {xor 0x01, xor 0x80, xor a drawn non-zero value}, truncation by 1 and extension by 1, and a private key whose public key differs. cases (b): (destination with an Ed25519 or RedDSA key that is a real curve point, secret of 32..64 bytes, instant) with instants drawn around UTC midnights +-1 s / +-1 ns between 1970 and 2200 and landmark instants (Go's zero time 0001-01-01, the epoch, 2^31, 2^32, year 9999) and expressed in locations UTC-14h..+14h. Oracles: decrypt(encrypt(x)).Bytes() = x.Bytes(), again on a second call with the same key object, the caller's key and cookie unchanged; any modified byte, changed length or different key => error and nil value; CreateBlindedDestination equal for two instants iff same UTC calendar day (own civil-date computation), independent of location; output keeps encryption key, padding and certificate and differs in the signing key; VerifyBlindedSignature true with the factor derived for that secret and day (also for both destinations re-read from their bytes), false for another day, another secret, and other factors (derived + k*L for every k that fits 32 bytes, single-bit differences at 39 positions per case, zero, L). Non-trivial: every case (each carries hundreds of modified ciphertexts); distinct by (plaintext, keys) / (destination, secret, instant)."
+const rule = "cases (a): LeaseSet2 values (model-encoded, parsed; one in twenty of 20..60 KB, one in eight without leases; every identity type, 1..16 keys, 1..16 leases, options, offline blocks), recipient X25519 key pairs and cookies derived from seeds (one in four a degenerate cookie: all zero, all ones, one set bit, half empty, one repeated byte); per case every single byte position of the ciphertext (ephemeral key, nonce, body, tag) x {xor 0x01, xor 0x80, xor a drawn non-zero value}, truncation by 1 and extension by 1, and a private key whose public key differs. cases (b): (destination with an Ed25519 or RedDSA key that is a real curve point, secret of 32..64 bytes, instant) with instants drawn around UTC midnights +-1 s / +-1 ns between 1970 and 2200 and landmark instants (Go's zero time 0001-01-01, the epoch, 2^31, 2^32, year 9999) and expressed in locations UTC-14h..+14h. Oracles: decrypt(encrypt(x)).Bytes() = x.Bytes(), again on a second call with the same key object, the caller's key and cookie unchanged; any modified byte, changed length or different key => error and nil value; CreateBlindedDestination equal for two instants iff same UTC calendar day (own civil-date computation), independent of location; output keeps encryption key, padding and certificate and differs in the signing key; VerifyBlindedSignature true with the factor derived for that secret and day (also for both destinations re-read from their bytes), false for another day, another secret, and other factors (derived + k*L for every k that fits 32 bytes, single-bit differences at 39 positions per case, zero, L). Non-trivial: every case (each carries hundreds of modified ciphertexts); distinct by (plaintext, keys) / (destination, secret, instant)."
 
 func TestMain(m *testing.M) { ev.Main(m, "C16", rule) }
 
@@ -60,6 +60,42 @@ func elsWith(inner []byte, seed uint64) (*encrypted_leaseset.EncryptedLeaseSet, 
 	return &els, nil
 }
 
+// cookieFor: the subcredential / cookie of a case. Seeds below 10 are the degenerate
+// values a sanity check might single out (all zero, all ones, one set bit, half empty,
+// one repeated byte); every other seed fills the 32 bytes pseudo-randomly.
+func cookieFor(seed uint64) (c [32]byte) {
+	switch seed {
+	case 0: // all zero
+	case 1:
+		for i := range c {
+			c[i] = 0xff
+		}
+	case 2:
+		c[0] = 1
+	case 3:
+		c[31] = 1
+	case 4:
+		c[31] = 0x80
+	case 5:
+		copy(c[16:], model.Fill(16, 5))
+	case 6:
+		copy(c[:16], model.Fill(16, 6))
+	case 7:
+		for i := range c {
+			c[i] = 0x01
+		}
+	case 8:
+		for i := range c {
+			c[i] = byte(i)
+		}
+	case 9:
+		c[15] = 0x10
+	default:
+		copy(c[:], model.Fill(32, seed))
+	}
+	return c
+}
+
 func checkEnc(c EncCase, r *ev.Rec) error {
 	m, _, _ := c.LS2.Build()
 	plain := m.Encode()
@@ -68,8 +104,10 @@ func checkEnc(c EncCase, r *ev.Rec) error {
 		return fmt.Errorf("ReadLeaseSet2 on the model encoding: %v", err)
 	}
 	priv, pub := recipient(c.KeySeed)
-	var cookie [32]byte
-	copy(cookie[:], model.Fill(32, c.Cookie))
+	cookie := cookieFor(c.Cookie)
+	if c.Cookie < 10 {
+		r.Class("enc:degenerate-cookie")
+	}
 	var pubArg interface{} = pub
 	switch c.Rep % 3 {
 	case 1:
@@ -213,7 +251,11 @@ var propEnc = &ev.Prop[EncCase]{Sub: "encrypt", Quick: 240, Thorough: 12000,
 				s.Keys[i].Len = 33
 			}
 		}
-		return EncCase{LS2: s, KeySeed: rapid.Uint64Range(1, 1<<30).Draw(t, "kseed"), Cookie: rapid.Uint64().Draw(t, "cookie"),
+		cookie := rapid.Uint64().Draw(t, "cookie")
+		if rapid.IntRange(0, 3).Draw(t, "degenerate") == 0 {
+			cookie = rapid.Uint64Range(0, 9).Draw(t, "cookie10")
+		}
+		return EncCase{LS2: s, KeySeed: rapid.Uint64Range(1, 1<<30).Draw(t, "kseed"), Cookie: cookie,
 			Xor: rapid.IntRange(0, 254).Draw(t, "xor"), Rep: rapid.IntRange(0, 2).Draw(t, "rep")}
 	}, Check: checkEnc}
 
